@@ -586,7 +586,9 @@ def verify(names, pid=None, canaries=False, lock=None):
             base = nm.split("~")[0]
             lk = (lock or {}).get(fname)
             info = next((f for f in res["functions"] if f["name"] == fname), {})
-            if lk and base in lk.get("discharged", []) and lk.get("sha256") != info.get("sha256"):
+            # (line numbers are part of obligation names: an edit that shifts lines must not hide the match)
+            if lk and _stem(base) in {_stem(x) for x in lk.get("discharged", [])} \
+                    and lk.get("sha256") != info.get("sha256"):
                 # passed on the unchanged tree, the function's source has changed, and the obligation
                 # no longer discharges: reported as a violation with the solver's reason attached
                 v = make_violation(fname, nm, ob, r, pid)
@@ -667,6 +669,12 @@ def clause_text(c, obname):
     return None
 
 
+def _stem(name):
+    """obligation name without the path suffix and without line numbers"""
+    import re
+    return re.sub(r"@L\d+", "", name.split("~")[0])
+
+
 def check_lock(res, lock):
     """Obligation kinds recorded in contracts/LOCK.json must still be generated (a contract that
     silently stops producing its postcondition obligation is an error, not a pass)."""
@@ -697,7 +705,7 @@ def replay(d):
     fn = d["case"]["function"] if d.get("case") else d["key"]["function"]
     r = verify([fn])
     want = d["key"]["obligation"]
-    hit = [o for o in r["obligations"] if o["name"].split("~")[0] == want]
+    hit = [o for o in r["obligations"] if _stem(o["name"]) == _stem(want)]
     for o in hit:
         print(f"{o['name']}: {o['status']} ({o['backend']}, {o['time_s']}s)", o.get("model", ""))
     if any(o["status"] == "refuted" for o in hit):
@@ -706,7 +714,7 @@ def replay(d):
     bad = [o for o in hit if o["status"] != "discharged"]
     lock = load_lock().get(fn.split("@")[0] if fn not in load_lock() else fn, {})
     cur = next((f["sha256"] for f in r["functions"] if f["name"] == fn), None)
-    if bad and want in lock.get("discharged", []) and cur != lock.get("sha256"):
+    if bad and _stem(want) in {_stem(x) for x in lock.get("discharged", [])} and cur != lock.get("sha256"):
         print("REPRODUCED on the current tree: the obligation is recorded as discharged for the unchanged source "
               f"({lock.get('sha256')}) and is not discharged for the current source ({cur}): "
               + "; ".join(f"{o['name']}: {o['status']} {o.get('reason', '')[:120]}" for o in bad))
